@@ -125,10 +125,39 @@ func (s *scriptReader) ReadPacketData() ([]byte, *gopacket.CaptureInfo, error) {
 		}
 		return []byte{byte(pos >> 8), byte(pos), sym}, ci, nil
 	}
+	if sym == 'x' && pos%3 == 1 {
+		// an unknown failure whose VALUE is of a type that cannot be compared or hashed (a list of causes): a
+		// classifier may compare it with its sentinels (`==` on different dynamic types is false) but must not key a map
+		// with it.  It carries its position itself
+		return nil, nil, errList{"boom", strconv.Itoa(pos)}
+	}
 	err := recvErr(sym)
 	s.errPos[err] = pos
 	return nil, nil, err
 }
+
+type errList []string
+
+func (e errList) Error() string { return e[0] }
+
+// deadlineCtx: a context that ends the way a context with a deadline does — Done is closed, Err is
+// context.DeadlineExceeded (not context.Canceled).  "Cancellation ends reading" is about Done
+type deadlineCtx struct {
+	context.Context
+	done chan struct{}
+	once sync.Once
+}
+
+func (c *deadlineCtx) Done() <-chan struct{} { return c.done }
+func (c *deadlineCtx) Err() error {
+	select {
+	case <-c.done:
+		return context.DeadlineExceeded
+	default:
+		return nil
+	}
+}
+func (c *deadlineCtx) end() { c.once.Do(func() { close(c.done) }) }
 
 func (s *scriptReader) WritePacketData([]byte) error { return nil }
 
@@ -204,6 +233,12 @@ func runRecv(syms, cancelS string) string {
 	}
 	ctx, cancel := context.WithCancel(context.Background())
 	defer cancel()
+	if cancelAt >= 0 && (len(syms)+cancelAt)%3 == 0 {
+		// every third cancelled run ends like a context whose deadline has passed
+		dc := &deadlineCtx{Context: context.Background(), done: make(chan struct{})}
+		ctx, cancel = dc, dc.end
+		defer dc.end()
+	}
 	errPos := map[error]int{}
 	rd := &scriptReader{syms: syms, cancelAt: cancelAt, cancel: cancel, errPos: errPos}
 	pr := &scriptProc{errPos: errPos}
@@ -226,7 +261,13 @@ loop:
 			}
 			rd.mu.Lock()
 			pr.mu.Lock()
-			pos, known := errPos[e]
+			pos, known := 0, false
+			if el, isList := e.(errList); isList {
+				pos, _ = strconv.Atoi(el[1])
+				known = true
+			} else {
+				pos, known = errPos[e]
+			}
 			pr.mu.Unlock()
 			rd.mu.Unlock()
 			if !known {
